@@ -1,6 +1,6 @@
 """C11 — close semantics and shared-handle lifecycle."""
 from rl import (method_role, entry_methods, loc_endswith, path_cond, trace_summary, where, const_of, fmt_val, fmt_loc, fields_of)
-from common import scan_field_writes, scan_calls, scan_aggregates, contains, poll_variant
+from common import scan_field_writes, scan_calls, scan_aggregates, contains, poll_variant, waker_escapes
 from engine import NONE
 from lib import CheckerError
 
@@ -126,6 +126,13 @@ def run(C, R):
                             k = E.variant_known(path.facts, x)
                             if not (any(w['k'] == 'wake' and w['waker'] in (x, inner) for w in path.events)
                                     or (k and k == ('eq', 'None'))):
+                                esc = waker_escapes(path, (x, inner))
+                                if esc is not None:
+                                    raise CheckerError(
+                                        'cannot judge %s: the wakers of the drained %s are handed to caller-visible '
+                                        'storage (%s) instead of being woken in the drain closure; this rule does '
+                                        'not follow a collection of wakers to the place where it is woken'
+                                        % (close['path'], q, where(F, esc)))
                                 waking = False
                     missing = [q for q in queues if q not in drained]
                     if not setf or missing or not waking or rv != 'NewlyClosed':
